@@ -9,7 +9,12 @@ LETTERS = 'ACGTRYSWKMBDHVN'
 MODELLED_FUNCS = {'sugar/core/cane.py': ['translate'], 'sugar/data/__init__.py': ['gcode'],
                   'sugar/core/seq.py': ['BioSeq.translate', 'BioBasket.translate']}
 TABLE_IDS = [1, 2, 3, 4, 5, 6, 9, 10, 11, 12, 13, 14, 15, 16, 21, 22, 23, 24, 25, 26, 27, 28, 29, 30, 31, 32, 33]
-RULE = ('per table: all 3375 IUPAC codons concatenated in chunks (complete=True) so that every codon of every table is translated '
+RULE = ('HISTORIES (op 3, 300 quick / 3000 thorough): several calls in one process on one persistent BioSeq and on texts - the same text with '
+        'option records differing in astop/gap/gap_after/check_*/final_stop/complete/tt in both orders, another text of the same length, '
+        'translate(seq) around in-place edits (data assignment, reverse, str.replace), seq.translate in place, baskets holding the same '
+        'object twice and a member that raises; every step is compared with the pure model applied to the current value (a history counts '
+        'as in-domain when all its option records are valid; the gc.prt oracle is applied to the steps whose input is a nucleotide string). '
+        'SINGLE CALLS: per table: all 3375 IUPAC codons concatenated in chunks (complete=True) so that every codon of every table is translated '
         'on every run; single codons (all 3375 x 27 tables in the thorough tier) and codon pairs over {A,T,G,R,N,-} with the option '
         'grid complete/check_start/check_stop/final_stop in {None,True,False} x astop x gap x gap_after; random CDS-like strings up '
         'to 300 codons with T/U mixing, ambiguity codes and gaps injected inside codons, between codons, leading, trailing and '
@@ -168,6 +173,97 @@ def rand_cds(rng, tt, ncod):
     return s
 
 
+# ------------------------------------------------------------------ histories (several calls in one process, op 3)
+def vary(rng, o):
+    """a second option record that differs from o in one or two fields (the plausible holes of a cache key)"""
+    o2 = dict(o)
+    for f in rng.sample(['astop', 'gap', 'gap_after', 'check_start', 'check_stop', 'final_stop', 'complete', 'tt'], rng.choice([1, 1, 2])):
+        cur = o2.get(f, DEFAULTS[f])
+        if f == 'astop':
+            o2[f] = rng.choice([c for c in ['X', '*', '?', 'Z'] if c != cur and c != o2.get('gap', '-')])
+        elif f == 'gap':
+            o2[f] = rng.choice([c for c in ['-', '.', None] if c != cur and c != o2.get('astop', 'X')])
+        elif f == 'gap_after':
+            o2[f] = rng.choice([c for c in [1, 2, 3, 4, None] if c != cur])
+        elif f == 'tt':
+            o2[f] = rng.choice([c for c in TABLE_IDS if c != cur])
+        elif f in ('check_start', 'final_stop'):
+            o2[f] = rng.choice([c for c in [None, True, False] if c != cur])
+        else:
+            o2[f] = not cur
+    return o2
+
+
+def hstep(kind, o=None, **kw):
+    d = {'_k': kind}
+    if o is not None:
+        full = mk('', **o)
+        del full['op'], full['s']
+        d.update(full)
+    d.update(kw)
+    return d
+
+
+def gen_history(rng):
+    tt = rng.choice(TABLE_IDS)
+    o1 = rand_opts(rng, plain=0.3)
+    o1['tt'] = tt
+    if rng.random() < 0.6:
+        o1['check_start'] = False
+    o1.pop('warn', None)
+    o2 = vary(rng, o1)
+    # texts with ambiguous-stop codons (astop), both kinds of gap characters, internal and terminal stops
+    def text():
+        t = rand_cds(rng, tt, rng.choice([2, 3, 5, 8])) + rng.choice(['', 'TAR', 'TRA', 'TGA', 'AGR'])
+        if rng.random() < 0.7:
+            t = inject_gaps(rng, t, rng.choice(['-', '-', '.']), 0.15)
+        return t
+    t1 = text()
+    t2 = rng.choice([text(), t1[::-1], t1[:3] + t1[3:][::-1], ''.join(rng.choice('ACGT') for _ in t1)])   # often the same length
+    raising = hstep  # placeholder to keep names local
+    steps = []
+    pat = rng.choice(['calls', 'calls', 'object', 'object', 'basket'])
+    if pat == 'calls':
+        # (a)(b)(f): the same text with different options in both orders, another text with the same options
+        seqn = rng.choice([[(t1, o1), (t1, o2), (t1, o1), (t2, o2), (t1, o2)],
+                           [(t1, o2), (t1, o1), (t2, o1), (t1, o1), (t1, o2)],
+                           [(t1, o1), (t2, o1), (t1, o1), (t1, o2), (t2, o2), (t1, o1)]])
+        steps = [hstep('call', o, s=t) for t, o in seqn]
+        if rng.random() < 0.3:
+            steps.insert(rng.randrange(len(steps)), hstep('callseq', rng.choice([o1, o2])))
+    elif pat == 'object':
+        # (a)(c)(d): calls on the same object around in-place edits that keep the length, then in place
+        steps = [hstep('callseq', o1), hstep('callseq', o2), hstep('callseq', o1)]
+        for _ in range(rng.choice([1, 2, 3])):
+            e = rng.random()
+            if e < 0.35:
+                steps.append(hstep('rev'))
+            elif e < 0.6:
+                a, b = rng.sample('ACGT', 2)
+                steps.append(hstep('repl', a=a, b=b))
+            else:
+                steps.append(hstep('set', s=t2))
+            steps.append(hstep('callseq', rng.choice([o1, o2])))
+        steps.append(hstep('trans', rng.choice([o1, o2])))
+        steps.append(hstep('set', s=rng.choice([t1, t2])))
+        steps.append(hstep('callseq', o1))
+        steps.append(hstep('trans', o2))
+        if rng.random() < 0.5:
+            steps.append(hstep('call', o1, s=t1))
+    else:
+        # (e) shared members, one member raising: members before it are translated, it and the later ones are not
+        bad = rng.choice(['AAATAA', 'CCCAAATAG', 'GGG'])          # not a start codon in any table: raises with check_start=True
+        ob = dict(o1, check_start=True)
+        ms = rng.choice([[None, t2], [t2, None], [None, None], [t2, bad, None], [None, bad, t2], [bad, None], [t2, None, bad, None]])
+        steps = [hstep('callseq', o1), hstep('basket', ob, ms=ms), hstep('callseq', o2)]
+        if rng.random() < 0.5:
+            steps += [hstep('set', s=t1), hstep('basket', dict(o2, check_start=rng.choice([True, False])), ms=[None, t2]),
+                      hstep('callseq', o1)]
+    c = mk(t1, tt=tt, op=3)
+    c['steps'] = steps
+    return c
+
+
 def gen_cases(rng, tier):
     thorough = tier == 'thorough'
     cases = []
@@ -265,6 +361,9 @@ def gen_cases(rng, tier):
             tt = rng.choice([0, 7, 8, 17, 34, 100])
         cases.append(mk(s, tt=tt, op=rng.choice([0, 0, 1]), **o))
     rng.shuffle(cases)      # spread the long cases over the shards
+    # (f) histories: several calls in one process (state independence); first, each in a pristine child process
+    zygote()
+    cases = [gen_history(rng) for _ in range(3000 if thorough else 300)] + cases
     return cases
 
 
@@ -280,8 +379,150 @@ def kwargs(case):
     return {k: v for k, v in kw.items() if v != DEFAULTS[k] or type(v) is not type(DEFAULTS[k])}
 
 
+# ------------------------------------------------------------------ pristine processes for the histories
+# Every history runs in its own child process forked from a "zygote" that has imported sugar but never executed a case, so a
+# history is self-contained: state left behind by other cases of the run can neither cause nor hide its failure, and its replay
+# (python_snippet in a fresh interpreter) shows the same thing.
+_ZY = None
+
+
+def _zygote_loop(fin, fout):
+    import json as _json
+    for line in fin:
+        case = _json.loads(line)
+        r, w = os.pipe()
+        k = os.fork()
+        if k == 0:
+            try:
+                res = {'ok': run_history(case)}
+            except BaseException as e:
+                res = {'exc': type(e).__name__}
+            try:
+                os.write(w, _json.dumps(res).encode('latin-1'))
+            finally:
+                os._exit(0)
+        os.close(w)
+        chunks = []
+        while True:
+            b = os.read(r, 1 << 16)
+            if not b:
+                break
+            chunks.append(b)
+        os.close(r)
+        os.waitpid(k, 0)
+        fout.write(b''.join(chunks).decode('latin-1') + '\n')
+        fout.flush()
+
+
+def zygote():
+    global _ZY
+    if _ZY is None:
+        a_r, a_w = os.pipe()
+        b_r, b_w = os.pipe()
+        pid = os.fork()
+        if pid == 0:
+            try:
+                import signal
+                signal.signal(signal.SIGALRM, signal.SIG_DFL)
+                import sugar, sugar.core.cane, sugar.core.seq, sugar.data     # imports only: the zygote never executes a case
+                os.close(a_w)
+                os.close(b_r)
+                _zygote_loop(os.fdopen(a_r, 'r', encoding='latin-1'), os.fdopen(b_w, 'w', encoding='latin-1'))
+            finally:
+                os._exit(0)
+        os.close(a_r)
+        os.close(b_w)
+        _ZY = (os.fdopen(a_w, 'w', encoding='latin-1'), os.fdopen(b_r, 'r', encoding='latin-1'), pid)
+    return _ZY
+
+
+def zygote_reset():
+    global _ZY
+    if _ZY is not None:
+        try:
+            os.kill(_ZY[2], 9)
+            os.waitpid(_ZY[2], 0)
+        except OSError:
+            pass
+        for f in _ZY[:2]:
+            try:
+                f.close()
+            except Exception:
+                pass
+        _ZY = None
+
+
+def run_history_isolated(case):
+    import json as _json
+    fout, fin, _ = zygote()
+    try:
+        fout.write(_json.dumps(case) + '\n')
+        fout.flush()
+        line = fin.readline()
+        res = _json.loads(line)
+    except BaseException:
+        zygote_reset()
+        raise
+    if 'exc' in res:
+        raise type(str(res['exc']), (Exception,), {})()
+    return res['ok']
+
+
+def run_history(case):
+    from sugar.core.cane import translate
+    from sugar import BioSeq, BioBasket
+    seq = BioSeq(case['s'], type='nt')
+    outs = []
+    for st in case['steps']:
+        k = st['_k']
+        state = lambda: [seq.data, seq.type]
+        if k == 'call':
+            try:
+                r = translate(st['s'], **kwargs(st))
+            except ValueError:
+                r = {'e': 'ValueError'}
+            outs.append([r, state()])
+        elif k == 'callseq':
+            before = seq.data
+            try:
+                r = translate(seq, **kwargs(st))
+            except ValueError:
+                r = {'e': 'ValueError'}
+            outs.append([before, r, state()])
+        elif k == 'set':
+            seq.data = st['s']
+            outs.append(state())
+        elif k == 'rev':
+            assert seq.reverse() is seq
+            outs.append(state())
+        elif k == 'repl':
+            assert seq.str.replace(st['a'], st['b']) is seq
+            outs.append(state())
+        elif k == 'trans':
+            before, err = seq.data, None
+            try:
+                assert seq.translate(**kwargs(st)) is seq
+            except ValueError:
+                err = 'ValueError'
+            outs.append([before, err, state()])
+        elif k == 'basket':
+            objs = [seq if m is None else BioSeq(m, type='nt') for m in st['ms']]
+            b, err = BioBasket(objs), None
+            try:
+                assert b.translate(**kwargs(st)) is b
+            except ValueError:
+                err = 'ValueError'
+            assert len(b) == len(objs) and all(x is y for x, y in zip(b, objs))
+            outs.append([err, [[q.data, q.type] for q in objs]])
+        else:
+            raise AssertionError('unknown step %r' % (k,))
+    return outs
+
+
 def impl(case):
     op, s = case['op'], case['s']
+    if op == 3:
+        return run_history_isolated(case)
     kw = kwargs(case)
     if op == 0:
         from sugar.core.cane import translate
@@ -311,7 +552,32 @@ def coq_byte(ch):
     return 'x%02x' % ord(ch)
 
 
+def coq_opts(c):
+    return '(mk_opts %s %s %s %s %s %s %s)' % (
+        coq_bool(c['complete']), coq_opt(c['check_start'], coq_bool), coq_bool(c['check_stop']), coq_opt(c['final_stop'], coq_bool),
+        coq_byte(c['astop']), coq_opt(c['gap'], coq_byte), coq_opt(c['gap_after'], coq_z))
+
+
+def coq_hstep(st):
+    k = st['_k']
+    if k == 'call':
+        return '(HCall %s %s %s)' % (coq_N(st['tt']), coq_opts(st), coq_bs(st['s']))
+    if k == 'callseq':
+        return '(HCallSeq %s %s)' % (coq_N(st['tt']), coq_opts(st))
+    if k == 'set':
+        return '(HSet %s)' % coq_bs(st['s'])
+    if k == 'rev':
+        return 'HRev'
+    if k == 'repl':
+        return '(HRepl %s %s)' % (coq_byte(st['a']), coq_byte(st['b']))
+    if k == 'trans':
+        return '(HTrans %s %s)' % (coq_N(st['tt']), coq_opts(st))
+    return '(HBasket %s %s [%s])' % (coq_N(st['tt']), coq_opts(st), '; '.join(coq_opt(m, coq_bs) for m in st['ms']))
+
+
 def model_term(case):
+    if case['op'] == 3:
+        return 'out (run_C07_hist %s [%s])' % (coq_bs(case['s']), '; '.join(coq_hstep(st) for st in case['steps']))
     return 'out (run_C07 %s %s (mk_opts %s %s %s %s %s %s %s) %s)' % (
         coq_N(case['op']), coq_N(case['tt']), coq_bool(case['complete']), coq_opt(case['check_start'], coq_bool),
         coq_bool(case['check_stop']), coq_opt(case['final_stop'], coq_bool), coq_byte(case['astop']),
@@ -349,11 +615,106 @@ def check_one(case, s, got):
     return None
 
 
+def in_alphabet(st, text):
+    return all(ch in LETTERS or ch == 'U' or ch == st['gap'] for ch in text)
+
+
+def spec_history(case, got):
+    """every translating step of a history against the first-principles oracle (where its current input is a nucleotide string);
+    not-in-place steps must leave the object as it was; repeated identical steps must agree"""
+    if isinstance(got, dict):
+        return 'history raised %s' % got.get('e')
+    if len(got) != len(case['steps']):
+        return 'history has %d results for %d steps' % (len(got), len(case['steps']))
+    cur = [case['s'].upper(), 'nt']
+    seen = {}
+    for i, (st, out) in enumerate(zip(case['steps'], got)):
+        k = st['_k']
+        if k in ('call', 'callseq'):
+            text = st['s'] if k == 'call' else out[0]
+            res, state = (out[0], out[1]) if k == 'call' else (out[1], out[2])
+            if k == 'callseq' and text != cur[0]:
+                return 'step %d: translate(seq) saw %r, the object holds %r' % (i, text, cur[0])
+            if state != cur:
+                return 'step %d: not-in-place call changed the object to %r' % (i, state)
+            r = 'ValueError' if isinstance(res, dict) else res
+            key = (text, tuple(sorted((a, repr(b)) for a, b in kwargs(st).items())))
+            if key in seen and seen[key] != r:
+                return 'step %d: the same call gave %r before and %r now' % (i, seen[key], r)
+            seen[key] = r
+            if st['tt'] in prt_tables() and in_alphabet(st, text) and (st['gap_after'] is None or st['gap_after'] >= 1):
+                why = check_one(st, text, r)
+                if why:
+                    return 'step %d: %s' % (i, why)
+        elif k == 'set':
+            cur = [st['s'], cur[1]]
+            if out != cur:
+                return 'step %d: data assignment gives %r' % (i, out)
+        elif k == 'rev':
+            cur = [cur[0][::-1], cur[1]]
+            if out != cur:
+                return 'step %d: reverse gives %r' % (i, out)
+        elif k == 'repl':
+            cur = [cur[0].replace(st['a'], st['b']), cur[1]]
+            if out != cur:
+                return 'step %d: replace gives %r' % (i, out)
+        elif k == 'trans':
+            before, err, state = out
+            if before != cur[0]:
+                return 'step %d: seq.translate saw %r, the object holds %r' % (i, before, cur[0])
+            if err is not None:
+                if state != cur:
+                    return 'step %d: failing seq.translate changed the object to %r' % (i, state)
+                r = 'ValueError'
+            else:
+                if state[1] != 'aa':
+                    return 'step %d: type %r after translate' % (i, state[1])
+                r = state[0]
+            if st['tt'] in prt_tables() and in_alphabet(st, before):
+                why = check_one(st, before, r)
+                if why:
+                    return 'step %d: %s' % (i, why)
+            if err is None:
+                cur = state
+        elif k == 'basket':
+            err, seqs = out
+            shared = [q for m, q in zip(st['ms'], seqs) if m is None]
+            if any(q != shared[0] for q in shared):
+                return 'step %d: the same object shows different states %r' % (i, shared)
+            failed = False
+            for m, q in zip(st['ms'], seqs):
+                if m is None:          # the shared object: compared with the model only (it may have been translated twice)
+                    if err is not None:
+                        break          # it may be the member that raised
+                    continue
+                inp = m.upper()
+                if failed:
+                    if q != [inp, 'nt']:
+                        return 'step %d: member after the failing one was changed: %r' % (i, q)
+                    continue
+                if not in_alphabet(st, inp) or st['tt'] not in prt_tables():
+                    break
+                exp = spec_translate(st, inp)
+                if exp == 'ValueError':
+                    failed = True
+                    if q != [inp, 'nt']:
+                        return 'step %d: failing member was changed: %r' % (i, q)
+                elif q[1] != 'aa' or check_one(st, inp, q[0]):
+                    return 'step %d: member %r -> %r' % (i, inp, q)
+            if failed and err != 'ValueError':
+                return 'step %d: a member must raise but the basket did not' % i
+            if shared:
+                cur = shared[0]
+    return None
+
+
 def spec(case, got):
     """Property-level oracle (NCBI gc.prt + IUPAC), independent of sugar's loop, of gc.json and of the Coq model."""
     if case['tt'] not in prt_tables():
         return None
     op = case['op']
+    if op == 3:
+        return spec_history(case, got)
     if op == 0:
         if isinstance(got, dict):
             return check_one(case, case['s'], 'ValueError') if got.get('e') == 'ValueError' else 'raised %s' % got.get('e')
@@ -395,6 +756,13 @@ def flat(case, got):
     """main observable: the (first) translated string, or the error dict"""
     if isinstance(got, dict) or case['op'] == 0:
         return got
+    if case['op'] == 3:
+        for st, out in zip(case['steps'], got):
+            if st['_k'] == 'call':
+                return out[0]
+            if st['_k'] == 'callseq':
+                return out[1]
+        return ''
     if case['op'] == 1:
         return got[0]
     return {'e': got[0]} if got[0] else got[1][0][0]
@@ -433,7 +801,9 @@ def markers(case, got):
                     ('gap', '-'), ('gap_after', 2)):
         if case[k] != dflt:
             m.append(k)
-    if case['op']:
+    if case['op'] == 3:
+        m.append('history:' + '-'.join(sorted(set(st['_k'] for st in case['steps']))))
+    elif case['op']:
         m.append('wrapper')
     return m
 
@@ -459,7 +829,34 @@ def features(case, got):
     return {}
 
 
+def history_snippet(case):
+    L = ['from sugar import BioSeq, BioBasket', 'from sugar.core.cane import translate',
+         "seq = BioSeq(%r, type='nt')" % case['s'],
+         'def show(f):', '    try: print(repr(f()), [seq.data, seq.type])', "    except ValueError as e: print('ValueError', e, [seq.data, seq.type])"]
+    for st in case['steps']:
+        k = st['_k']
+        kw = ', '.join('%s=%r' % kv for kv in kwargs(st).items()) if 'tt' in st else ''
+        if k == 'call':
+            L.append('show(lambda: translate(%r, %s))' % (st['s'], kw))
+        elif k == 'callseq':
+            L.append('show(lambda: translate(seq, %s))' % kw)
+        elif k == 'set':
+            L.append('seq.data = %r' % st['s'])
+        elif k == 'rev':
+            L.append('seq.reverse()')
+        elif k == 'repl':
+            L.append('seq.str.replace(%r, %r)' % (st['a'], st['b']))
+        elif k == 'trans':
+            L.append('show(lambda: seq.translate(%s).data)' % kw)
+        else:
+            L.append('objs = [%s]' % ', '.join('seq' if m is None else "BioSeq(%r, type='nt')" % m for m in st['ms']))
+            L.append('show(lambda: BioBasket(objs).translate(%s) and None); print([[q.data, q.type] for q in objs])' % kw)
+    return '\n'.join(L)
+
+
 def python_snippet(case):
+    if case['op'] == 3:
+        return history_snippet(case)
     kw = ', '.join('%s=%r' % kv for kv in kwargs(case).items())
     if case['op'] == 0:
         return 'from sugar.core.cane import translate; print(repr(translate(%r, %s)))' % (case['s'], kw)
